@@ -121,10 +121,13 @@ def ted_cache_keys(repo: Repo, res: CheckResult) -> None:
         raise AnalysisError("LiteralProvider is no longer registered for Literal")
     expr_seeds: Dict[Tuple[str, str], Set[str]] = {}
     for name, fn in ci.methods.items():
+        # locals that hold the normalised request type (whatever they are called)
+        nvars = {norm(a.targets[0]) for a in ast.walk(fn) if isinstance(a, ast.Assign) and isinstance(a.value, ast.Call)
+                 and norm(a.value.func) in ("try_normalize_type", "normalize_type") and isinstance(a.targets[0], ast.Name)}
         for node in ast.walk(fn):
             if isinstance(node, ast.Attribute) and node.attr == "args" and isinstance(node.value, ast.Name) \
-                    and node.value.id == "norm":
-                expr_seeds.setdefault((m.rel, f"{ci.name}.{name}"), set()).add("norm.args")
+                    and node.value.id in nvars:
+                expr_seeds.setdefault((m.rel, f"{ci.name}.{name}"), set()).add(f"{node.value.id}.args")
     if not expr_seeds:
         raise AnalysisError("TED sources vanished: norm.args in LiteralProvider")
     ted = Ted(repo, [m], {}, expr_seeds)
